@@ -19,6 +19,22 @@ theorem doInsert_frame (fixed merge : Bool) (w w' : W) (b author eff name lines 
     show (W.setBr w b _).br b' = _
     exact br_setBr_other _ _ _ _ hb
 
+theorem doEdit_frame (fixed : Bool) (w w' : W) (b author eff name oldL newL : Nat) (script : List (EK × Nat))
+    (f : List Fu.Node) (h : doEdit fixed w b author eff name oldL newL script f = .ok w') (b' : Nat) (hb : b' ≠ b) :
+    w'.br b' = w.br b' := by
+  unfold doEdit at h
+  split at h
+  · simp at h
+  · split at h
+    · simp at h
+    · split at h
+      · simp at h
+      · split at h
+        · simp at h
+        · simp at h; subst h
+          show (W.setBr w b _).br b' = _
+          exact br_setBr_other _ _ _ _ hb
+
 /-- **C08 (burndown)**: one change of a commit replayed on branch `b` leaves every other branch copy exactly
     as it was — files, tick and merge bookkeeping — whatever the change and whether or not it succeeds. -/
 theorem doOp_frame (fixed merge : Bool) (w w' : W) (b author eff : Nat) (op : Op)
@@ -41,17 +57,17 @@ theorem doOp_frame (fixed merge : Bool) (w w' : W) (b author eff : Nat) (op : Op
     split at h
     · have := doInsert_frame fixed merge _ w' b author eff name newL h b' hb
       rw [this, br_markMf]
-    · split at h
-      · simp at h
-      · split at h
-        · simp at h
-        · split at h
-          · simp at h
-          · split at h
-            · simp at h
-            · simp at h; subst h
-              show (W.setBr (markMf w merge b name true) b _).br b' = _
-              rw [br_setBr_other _ _ _ _ hb, br_markMf]
+    · have := doEdit_frame fixed _ w' b author eff name oldL newL script _ h b' hb
+      rw [this, br_markMf]
+  | ren src name oldL newL script =>
+    simp only [doOp] at h
+    split at h
+    · have := doInsert_frame fixed merge _ w' b author eff name newL h b' hb
+      rw [this, br_markMf]
+    · have := doEdit_frame fixed _ w' b author eff name oldL newL script _ h b' hb
+      rw [this, br_markMf]
+      show (W.setBr (markMf w merge b name true) b _).br b' = _
+      rw [br_setBr_other _ _ _ _ hb, br_markMf]
 
 theorem beginCommit_frame (w : W) (b tick author : Nat) (merge : Bool) (b' : Nat) (hb : b' ≠ b) :
     (beginCommit w b tick author merge).br b' = w.br b' := by
